@@ -1793,7 +1793,11 @@ impl<'a> AstResolver<'a> {
             ty.exports.entry(name).or_insert(*item);
         }
 
-        if let Some(missing) = replacements.values().next() {
+        // Report the first one in the source (the map's order is arbitrary)
+        if let Some(missing) = replacements
+            .values()
+            .min_by_key(|item| item.from.span.offset())
+        {
             return Err(Error::MissingWorldInclude {
                 world: include.world.name().to_owned(),
                 name: missing.from.string.to_owned(),
